@@ -6,6 +6,6 @@ CONSTANTS
   SkipAfterDelete = TRUE
   MaxCalls = 3
   MaxPubs = 1
-  SplitPub = FALSE
+  SplitPub = TRUE
 INVARIANTS TypeOK EveryLaterMessage NoDuplicateDelivery NoneToThoseWhoLeftInOrder StaysSubscribed NoneAfterUnsubscribedInOrder
 CHECK_DEADLOCK FALSE
